@@ -155,7 +155,11 @@ func causeClass(P *Program, fa *FA, b *ssa.BasicBlock) (class string, detail str
 	if len(b.Preds) != 1 {
 		return "", "join"
 	}
-	p := b.Preds[0]
+	return causeClassEdge(P, fa, b.Preds[0], b)
+}
+
+// causeClassEdge classifies the condition on the edge p → b.
+func causeClassEdge(P *Program, fa *FA, p, b *ssa.BasicBlock) (class string, detail string) {
 	iff, ok := p.Instrs[len(p.Instrs)-1].(*ssa.If)
 	if !ok {
 		return causeClass(P, fa, p) // fall through unconditional jumps
